@@ -31,7 +31,8 @@ TYPES = {
 
 class MasterGen:
     def __init__(self, rng, depth=2, multiples=True, nested_multiples=False, noncanonical=True, disabled=True,
-                 further=True, types=None):
+                 further=True, types=None, deprecated=False):
+        self.deprecated = deprecated
         self.rng = rng
         self.depth = depth
         self.multiples = multiples
@@ -52,7 +53,8 @@ class MasterGen:
             dv = "*a b c"
         node = {"k": "d", "name": name, "type": t, "default": dv, "multiple": mult, "optional": opt,
                 "dis": self.disabled and r.random() < 0.06, "expert": r.choice([None, None, None, 0, 1, 2]),
-                "help": r.choice([None, None, "some help"]), "further": []}
+                "help": r.choice([None, None, "some help"]), "further": [],
+                "deprecated": self.deprecated and not mult and r.random() < 0.12}
         if mult and self.further and not node["dis"] and r.random() < 0.4:
             node["further"] = [r.choice(TYPES[t][1] or [dv]) for _ in range(r.choice([1, 2]))]
         return node
@@ -94,6 +96,8 @@ def attr_lines(node, indent):
         s += "%s  .optional = %s\n" % (indent, node["optional"])
     if node["expert"] is not None:
         s += "%s  .expert_level = %d\n" % (indent, node["expert"])
+    if node.get("deprecated"):
+        s += "%s  .deprecated = True\n" % indent
     return s
 
 
@@ -141,6 +145,8 @@ class SourceGen:
     def value_for(self, node):
         r = self.rng
         d, ok, bad = TYPES[node["type"]]
+        if r.random() < (0.5 if node.get("deprecated") else 0.1):
+            return node["default"]          # left at the master's default
         if bad and not self.valid_only and r.random() < 0.08:
             return r.choice(bad)
         return r.choice(ok or d)
